@@ -253,6 +253,14 @@ def plant_container_level(doc, dia, r):
                     yield ("multi_in_token/" + tag, with_elems(doc, path, elems[:k] + [("item", e[1], ("rawv", "'a\x01b\udc00c\ud800d'"))] + elems[k + 1:]),
                            with_elems(doc, path, elems[:k] + [("item", e[1], S("a\x01b\ufffdc\ufffdd", "sq"))] + elems[k + 1:]), 104,
                            {"codes": [104, 102, 102]}, None)
+                if dia == 2:
+                    # … in a text field, on two of its lines; in a whitespace-delimited value (lead surrogate in the middle)
+                    yield ("multi_in_text/" + tag, with_elems(doc, path, elems[:k] + [("item", e[1], ("rawv", "\n;a\x01b\nc\udc00d\ud800e\n;"))] + elems[k + 1:]),
+                           with_elems(doc, path, elems[:k] + [("item", e[1], S("a\x01b\nc\ufffdd\ufffde", "text"))] + elems[k + 1:]), 104,
+                           {"codes": [104, 102, 102]}, None)
+                    yield ("multi_in_bare/" + tag, with_elems(doc, path, elems[:k] + [("item", e[1], ("rawv", "ab\ud800cd\x01e"))] + elems[k + 1:]),
+                           with_elems(doc, path, elems[:k] + [("item", e[1], S("ab\ufffdcd\x01e"))] + elems[k + 1:]), 102,
+                           {"codes": [102, 104]}, None)
                 # a defective unit inside a COMMENT: reported, the comment is skipped as usual
                 cbad = "\x01" if dia == 2 else "\x7f"
                 yield ("defect_in_comment/" + tag, with_elems(doc, path, elems[:k] + [("raw", "#c" + cbad + "d", True)] + elems[k:]), doc, 104,
@@ -888,7 +896,7 @@ def generate(seed, tier):
             if label.startswith("skip") or not applicable(label, doc, opts):
                 continue
             for style in (("lines", "min") if (hand and not is_nested) else ("lines",)):
-                if style == "min" and (label.startswith(("missing_endquote", "overlength", "unclosed_text", "eof_unclosed", "defect_in_comment", "defects_in_comment")) or "text_key" in label):
+                if style == "min" and (label.startswith(("missing_endquote", "overlength", "unclosed_text", "eof_unclosed", "defect_in_comment", "defects_in_comment", "multi_in_text")) or "text_key" in label):
                     continue
                 rq = case_request(label, planted, result, code, opts, alt, dia, r, style, mfd)
                 if rq is not None:
